@@ -50,6 +50,9 @@ PURE = {
     r"^(dedupe::)?may_drop$": _file_level("may_drop"),
     r"^<(chrono::)?DateTime<(chrono::)?Local> as From<.*>>::from$|^<.* as (std::convert::)?Into<(chrono::)?DateTime<.*>>>::into$": summaries.pure("to_local"),
     r"^<(chrono::)?DateTime<.*> as (std::cmp::)?PartialOrd(<.*>)?>::(gt|lt|ge|le)$": summaries.pure("time_cmp"),
+    r"^(std::path::)?Path::is_symlink$": summaries.pure("is_symlink"),
+    r"^(std::fs::)?(Metadata|FileType)::is_symlink$": summaries.pure("is_symlink"),
+    r"^(path::)?Path::to_path_buf$": summaries.pure("pathbuf"),
 }
 
 
@@ -185,7 +188,7 @@ def file_syms(i):
 def run_partition_obligations(prog, nfiles_list=(2, 3)):
     """-> dict name -> (verdict data) ; each entry: list of counterexample dicts (empty = holds), stats"""
     results = {k: {"cex": [], "paths": 0, "queries": 0, "errors": []} for k in
-               ("no-loss-no-dup", "atomic-subgroups", "patterns", "retention-count", "top-up-order", "stale-filter", "mtime-check", "subgroup-args")}
+               ("no-loss-no-dup", "atomic-subgroups", "patterns", "retention-count", "top-up-order", "stale-filter", "mtime-check", "subgroup-args", "data-retained")}
     encoded = {}
     glen = z3.BitVec("glen.0", 64)
     no_check = z3.Bool("config*.no_check_size")
@@ -283,6 +286,24 @@ def run_partition_obligations(prog, nfiles_list=(2, 3)):
                         okargs.append(z3.And(z3.BoolVal("config*.isolated_roots" in roots_cn),
                                              (by_id.t == z3.Not(ml)) if isinstance(by_id, Bool) else z3.BoolVal(False)))
                 need("subgroup-args", z3.And(*okargs) if okargs else z3.BoolVal(False))
+                # a symbolic link holds no data (metadata follows links, so a link to a regular file of the right length passes every
+                # filter above): whenever something is dropped, some retained path is known not to be a symbolic link.  The lstat
+                # results are free per-path predicates; a path the code never asked about may be a link.
+                if drop:
+                    syms = {}
+
+                    def walk(t):
+                        if z3.is_const(t) and t.decl().kind() == z3.Z3_OP_UNINTERPRETED and z3.is_bool(t):
+                            m_ = re.match(r"is_symlink.*?f(\d+)\.path", str(t))
+                            if m_:
+                                syms[int(m_.group(1))] = t
+                        for c_ in t.children():
+                            walk(c_)
+                    for c in pc:
+                        walk(c)
+                    need("data-retained", z3.Or(*[z3.Not(syms.get(i, z3.Bool("is_symlink_never_asked(f%d)" % i))) for i in sorted(keep)]) if keep else z3.BoolVal(False))
+                else:
+                    results["data-retained"]["queries"] += 0
                 # C04: with a time limit, the mtime check covered every classified file and found nothing
                 wm = [ev for ev in pp.p.events if ev.kind == "call" and ev.callee == "was_modified"]
                 classified = tuple(sorted("f%d" % i for i in (keep | drop)))
